@@ -63,11 +63,14 @@ impl DataItem for DateItem {
 
         match operation_type {
             OperationType::Add => {
+                /* Year and month are moved first, the date is built once so that only the target has to exist */
+                let mut year  = date.year();
+                let mut month = date.month0();
+
                 match self.get_year_from_duration(duration) {
                     0 => (),
                     n => {
-                        let years_diff = date.year().checked_add(i32::try_from(n).ok()?)?;
-                        date     = NaiveDate::from_ymd_opt(years_diff, date.month() as u32, date.day())?;
+                        year     = year.checked_add(i32::try_from(n).ok()?)?;
                         duration = Duration::seconds(duration.num_seconds() - (YEAR * n))
                     }
                 };
@@ -75,21 +78,23 @@ impl DataItem for DateItem {
                 match self.get_month_from_duration(duration) {
                     0 => (),
                     n => {
-                        let years_diff = (date.month0() + n as u32) / 12;
-                        let month = (date.month0() + n as u32) % 12 + 1;
-                        date     = NaiveDate::from_ymd_opt(date.year().checked_add(years_diff as i32)?, month as u32, date.day())?;
+                        year     = year.checked_add(((month + n as u32) / 12) as i32)?;
+                        month    = (month + n as u32) % 12;
                         duration = Duration::seconds(duration.num_seconds() - (MONTH * n))
                     }
                 };
+                date = NaiveDate::from_ymd_opt(year, month + 1, date.day())?;
                 Some(Rc::new(DateItem(date.checked_add_signed(duration)?, self.1.clone())))
             },
 
             OperationType::Sub => {
+                let mut year  = date.year();
+                let mut month = date.month() as i32;
+
                 match self.get_year_from_duration(duration) {
                     0 => (),
                     n => {
-                        let years_diff = date.year().checked_sub(i32::try_from(n).ok()?)?;
-                        date     = NaiveDate::from_ymd_opt(years_diff, date.month() as u32, date.day())?;
+                        year     = year.checked_sub(i32::try_from(n).ok()?)?;
                         duration = Duration::seconds(duration.num_seconds() - (YEAR * n))
                     }
                 };
@@ -97,16 +102,16 @@ impl DataItem for DateItem {
                 match self.get_month_from_duration(duration) {
                     0 => (),
                     n => {
-                        let years = date.year() - (n as i32 / 12);
-                        let mut months = date.month() as i32 - (n as i32 % 12);
-                        if months <= 0 {
-                            months += 12;
+                        year   = year - (n as i32 / 12);
+                        month -= n as i32 % 12;
+                        if month <= 0 {
+                            month += 12;
                         }
 
-                        date = NaiveDate::from_ymd_opt(years as i32, months as u32, date.day())?;
                         duration = Duration::seconds(duration.num_seconds() - (MONTH * n))
                     }
                 };
+                date = NaiveDate::from_ymd_opt(year, month as u32, date.day())?;
                 Some(Rc::new(DateItem(date.checked_sub_signed(duration)?, self.1.clone())))
             },
             _ => None
